@@ -26,6 +26,13 @@ spec/MultiStore.tla, bound to the real Go code in both directions.
      thorough tier so that PruneSyncable prunes), logs ndjson events, and TLC validates the log with
      spec/Trace_MultiStore.tla (real store hashes as tokens).
 
+Two extensions of the modelled API use (MultiStore.tla header): LoadVersion(v) on the LIVE handle
+(action LiveLoad: a failing load changes nothing, a succeeding one moves the handle; generated in the
+exhaustive models, the simulated behaviours - driver step `liveload` - and the recorded histories),
+and pruning options given as a STRATEGY STRING: the model resolves it with its transcription of
+store.NewPruningOptionsFromString (StrategyOpts), the driver with the real function.  Every violation
+record carries the MODEL's kr / ke and the strategy string.
+
 The Go driver executes and projects only; expected values come from the spec (TLC output).
 """
 import json
@@ -54,7 +61,10 @@ NORMATIVE = {
             "retained-version-unreadable-live", "pruned-version-readable", "loaded-version-wrong-content",
             "loaded-version-hash-differs-from-commit", "versioned-view-wrong-content",
             "transient-not-empty-after-commit", "transient-not-empty-after-reopen", "commit-changes-content",
-            "working-content-differs", "prune-rule-differs", "commit-panics", "save-conflict"},
+            "working-content-differs", "prune-rule-differs", "commit-panics", "save-conflict",
+            # LoadVersion on the live handle: all or nothing
+            "failed-load-changes-handle", "live-load-wrong-version", "live-load-wrong-content",
+            "live-load-hash-differs-from-commit", "live-load-panics"},
     "C13": {"crash-reexec-panics", "commit-panics", "crash-reopen-fails", "crash-mixture", "crash-content-version-mismatch", "crash-wrong-version",
             "crash-reexec-fails", "crash-reexec-hash-differs", "crash-reexec-wrong-content",
             "crash-reexec-not-durable", "flush-not-atomic", "save-after-flush",
@@ -68,44 +78,70 @@ NORMATIVE = {
 TIERS = {
     "quick": {
         "mc": {
-            "C12": [("MC_MultiStore_C12.cfg", {"Vals": '{"x"}', "nprun": 5}, 400)],
-            "C13": [("MC_MultiStore_C13.cfg", {"Vals": '{"x"}', "nprun": 7}, 400),
-                    ("MC_MultiStore_C13_code.cfg", {"Vals": '{"x"}', "nprun": 4}, 300)],
-            "C14": [("MC_MultiStore_C14.cfg", {"Vals": '{"x"}', "nprun": 3}, 600)],
+            # strats: strategy strings of the exhaustive run ("?" = one unrecognised string, see run_mc)
+            "C12": [("MC_MultiStore_C12.cfg", {"Vals": '{"x"}', "nprun": 5, "strats": ["everything", "?"]}, 400)],
+            "C13": [("MC_MultiStore_C13.cfg", {"Vals": '{"x"}', "nprun": 7, "strats": ["everything", "?"]}, 400),
+                    ("MC_MultiStore_C13_code.cfg", {"Vals": '{"x"}', "nprun": 4, "strats": ["everything", "?"]}, 300)],
+            "C14": [("MC_MultiStore_C14.cfg", {"Vals": '{"x"}', "nprun": 3, "strats": ["everything", "?"]}, 600)],
         },
         "sim_workers": 4, "sim_num": 60, "fault_every": 1, "ldb_share": 0.0,
         # every seed has one option of each asymmetric shape, given to the store BEFORE loading:
         # A (kr>=2, ke=0), B (kr=0, ke>=2), C (kr>=1, ke>=2, kr != ke) -- confused arguments show
+        # strat: the options come from a strategy string ("?" = an unrecognised one drawn by the seed);
+        # pll: probability of LoadVersion calls on the live handle after a commit
         "records": {
-            "C12": [dict(commits=30, pr="A", spal=False), dict(commits=30, pr="B", spal=False), dict(commits=30, pr="C", spal=False),
-                    dict(commits=40, pr="rand"), dict(commits=25, pr="shipped")],
-            "C13": [dict(commits=30, pr="A", spal=False), dict(commits=30, pr="rand")],
-            "C14": [dict(commits=45, pr="rand"), dict(commits=45, pr="rand"), dict(commits=30, pr=1), dict(commits=30, pr=2)],
+            "C12": [dict(commits=30, pr="A", spal=False, pll=0.5), dict(commits=30, pr="B", spal=False, pll=0.5),
+                    dict(commits=30, pr="C", spal=False, pll=0.5), dict(commits=40, pr="rand", pll=0.5),
+                    dict(commits=25, strat="everything", pll=0.7), dict(commits=25, strat="?", pll=0.5)],
+            "C13": [dict(commits=30, pr="A", spal=False, pll=0.3), dict(commits=30, pr="rand", pll=0.3),
+                    dict(commits=20, strat="?", pll=0.3)],
+            "C14": [dict(commits=45, pr="rand", pll=0.3), dict(commits=45, pr="rand", pll=0.3), dict(commits=30, pr=1, pll=0.3),
+                    dict(commits=30, strat="nothing", pll=0.3), dict(commits=20, strat="?", pll=0.3)],
         },
     },
     "thorough": {
         "mc": {
-            "C12": [("MC_MultiStore_C12_thorough.cfg", {"Vals": '{"x"}'}, 2400),
-                    ("MC_MultiStore_C12_wide.cfg", {}, 1200)],
-            "C13": [("MC_MultiStore_C13_thorough.cfg", {"Vals": '{"x"}'}, 2400),
-                    ("MC_MultiStore_C13_code.cfg", {"Vals": '{"x"}'}, 1200)],
-            "C14": [("MC_MultiStore_C14_thorough.cfg", {"Vals": '{"x"}'}, 2400),
-                    ("MC_MultiStore_C14_wide.cfg", {}, 1800)],
+            "C12": [("MC_MultiStore_C12_thorough.cfg", {"Vals": '{"x"}', "strats": "all"}, 3000),
+                    ("MC_MultiStore_C12_wide.cfg", {"strats": ["everything"]}, 1500)],
+            "C13": [("MC_MultiStore_C13_thorough.cfg", {"Vals": '{"x"}', "strats": "all"}, 3000),
+                    ("MC_MultiStore_C13_code.cfg", {"Vals": '{"x"}', "strats": "all"}, 1500)],
+            "C14": [("MC_MultiStore_C14_thorough.cfg", {"Vals": '{"x"}', "strats": "all"}, 3000),
+                    ("MC_MultiStore_C14_wide.cfg", {"strats": ["everything"]}, 2200)],
         },
         "sim_workers": 8, "sim_num": 150, "fault_every": 1, "ldb_share": 0.15,
         "records": {
-            "C12": [dict(commits=130, pr=13), dict(commits=130, pr=1), dict(commits=130, pr=2)] +
-                   [dict(commits=130, pr="rand") for _ in range(6)] + [dict(commits=60, pr=13, backend="goleveldb"),
-                                                                      dict(commits=60, pr="rand", backend="goleveldb")],
-            "C13": [dict(commits=130, pr=13), dict(commits=80, pr="rand"), dict(commits=80, pr=1)],
-            "C14": [dict(commits=130, pr=13), dict(commits=130, pr=1), dict(commits=130, pr=2)] +
-                   [dict(commits=130, pr="rand") for _ in range(6)],
+            "C12": [dict(commits=130, pr=13, pll=0.4), dict(commits=130, pr=1, pll=0.4), dict(commits=130, pr=2, pll=0.4)] +
+                   [dict(commits=130, pr="rand", pll=0.4) for _ in range(6)] +
+                   [dict(commits=60, pr=13, backend="goleveldb", pll=0.4), dict(commits=60, pr="rand", backend="goleveldb", pll=0.4)] +
+                   [dict(commits=130, strat=s, pll=0.4) for s in ("syncable", "", "Nothing", "archive")] +
+                   [dict(commits=40, strat=s, pll=0.4) for s in ("everything", "nothing")],
+            "C13": [dict(commits=130, pr=13, pll=0.3), dict(commits=80, pr="rand", pll=0.3), dict(commits=80, pr=1, pll=0.3)] +
+                   [dict(commits=40, strat=s, pll=0.3) for s in ("", "Nothing", "archive", "everything")],
+            "C14": [dict(commits=130, pr=13, pll=0.3), dict(commits=130, pr=1, pll=0.3), dict(commits=130, pr=2, pll=0.3)] +
+                   [dict(commits=130, pr="rand", pll=0.3) for _ in range(6)] +
+                   [dict(commits=130, strat="?", pll=0.3), dict(commits=40, strat="nothing", pll=0.3)],
         },
     },
 }
 # indices into PRUNING_SEQ by shape
 SHAPES = {"A": [9], "B": [3, 4], "C": [7, 8, 12], "shipped": [1, 2]}
 PRUNING_SEQ = [(0, 0), (0, 1), (0, 2), (0, 3), (1, 0), (1, 1), (1, 2), (1, 3), (2, 0), (2, 1), (2, 2), (2, 3), (100, 10000)]
+# strategy strings (MultiStore.tla: Strategies / StrategyOpts).  Nothing here says what they resolve to:
+# the model's options come from TLC (HIST / CONF lines), the real ones from the driver.
+NO_STRATEGY = "<pair>"
+RECOGNISED = ["nothing", "everything", "syncable"]
+UNRECOGNISED = ["", "Nothing", "archive"]   # unset option, wrong case, unknown word
+SIM_STRATEGIES = RECOGNISED + UNRECOGNISED    # = Strategies of MC_MultiStore_sim*.cfg
+
+
+def tla_set(xs):
+    return "{" + ", ".join('"%s"' % x for x in xs) + "}"
+
+
+def strat_of(h):
+    """Strategy string of a behaviour printed by TLC (None: the pair was given directly)."""
+    s = h.get("strat")
+    return None if s is None or s == NO_STRATEGY else s
 
 
 # ------------------------------------------------------------------------------------------------
@@ -215,7 +251,7 @@ class Issues:
         self.counts[key] = self.counts.get(key, 0) + 1
         # examples are kept per configuration too: a matcher of a known finding may name kr / ke,
         # and the same signature under another pruning option is a different finding
-        ekey = (sig, fields.get("cls"), fields.get("kr"), fields.get("ke"), fields.get("spal"))
+        ekey = (sig, fields.get("cls"), fields.get("kr"), fields.get("ke"), fields.get("spal"), fields.get("strat"))
         self.examples[ekey] = self.examples.get(ekey, 0) + 1
         if self.examples[ekey] <= 2:
             d = {"sig": sig, "what": what}
@@ -289,6 +325,9 @@ def to_program(h, pid, backend, faults, obs_budget, rng, prune_after_flush=False
             op = e["op"]
             steps.append({"a": "write", "op": {"s": op["s"], "k": op["k"], "v": op["v"], "del": bool(op["del"])}})
             plan.append({"kind": "write", "e": e})
+        elif a == "liveload":
+            steps.append({"a": "liveload", "v": e["v"]})
+            plan.append({"kind": "liveload", "e": e})
         elif a == "commitstart":
             cstart = e
             done = []
@@ -323,6 +362,10 @@ def to_program(h, pid, backend, faults, obs_budget, rng, prune_after_flush=False
     if pending_flush is not None:
         emit_commit()
     cfg = {"stores": STORES, "transient": TSTORE, "kr": h["kr"], "ke": h["ke"], "backend": backend, "spal": bool(h.get("spal"))}
+    if strat_of(h) is not None:
+        # the driver resolves the string with the real store.NewPruningOptionsFromString and ignores
+        # kr / ke (which are what the specification's transcription made of it)
+        cfg["strat"] = strat_of(h)
     return {"id": pid, "cfg": cfg, "steps": steps}, plan
 
 
@@ -330,8 +373,19 @@ def to_program(h, pid, backend, faults, obs_budget, rng, prune_after_flush=False
 # judging a crash outcome against what the specification allows
 
 
-def crash_class(done, n, storevers=None):
-    """Position class of a crash: which durable writes of the commit of version n+1 were done."""
+def model_prunes_committed(kr, ke, v):
+    """Does the pruning rule of the SPECIFICATION (MultiStore.tla ToRelease, with the specification's
+    options) delete IAVL version v - the one the latest commit info points to - while saving v+1?"""
+    if kr is None or ke is None:
+        return True
+    return kr == 0 and v >= 1 and (ke == 0 or v % ke != 0)
+
+
+def crash_class(done, n, storevers=None, kr=None, ke=None):
+    """Position class of a crash: which durable writes of the commit of version n+1 were done.
+    `pruned_committed_version` describes the specification's configuration: a pruning delete of the
+    committed version was seen AND the specification's options (kr, ke) prescribe it.  A delete the
+    real store did under other options than the specification's shows as `unexpected_prune`."""
     kinds = [d.split(":")[0] for d in done]
     saves = [d for d in done if d.startswith("save:")]
     # did a pruning delete remove the IAVL version the latest commit info still points to?  (that is
@@ -342,23 +396,33 @@ def crash_class(done, n, storevers=None):
         _, s, v = d.split(":")
         sv[s] = int(v)
     pruned_n = False
+    unexpected = False
     for d in done:
         if d.startswith("prune:"):
             _, s, v = d.split(":")
             committed_iavl = (storevers or {}).get(s)
+            hit = False
             if committed_iavl is not None:
-                if int(v) == committed_iavl:
-                    pruned_n = True
+                hit = int(v) == committed_iavl
             elif (s in sv and int(v) == sv[s] - 1) or (s not in sv and int(v) == n and n >= 1):
-                pruned_n = True
+                hit = True
+            if hit:
+                if model_prunes_committed(kr, ke, int(v)):
+                    pruned_n = True
+                else:
+                    unexpected = True
     after = kinds[-1] if kinds else "none"
-    return {
+    r = {
         "first_commit": n == 0,
         "after": after,
         "saved": "%dof%d" % (len(saves), len(STORES)),
         "pruned_committed_version": bool(pruned_n),
         "cls": "first=%s;after=%s;saved=%dof%d;pruned_n=%s" % (n == 0, after, len(saves), len(STORES), bool(pruned_n)),
     }
+    if unexpected:
+        r["unexpected_prune"] = True
+        r["cls"] += ";unexpected_prune"
+    return r
 
 
 def judge_reopen(iss, ro, n, pre, post, fields, flushed):
@@ -416,7 +480,7 @@ def judge_faults(iss, faults, n, pre, post, ideal_hash, committed, base_fields, 
     for f in faults:
         done = f.get("done") or []
         fields = dict(base_fields)
-        fields.update(crash_class(done, n, storevers))
+        fields.update(crash_class(done, n, storevers, base_fields.get("kr"), base_fields.get("ke")))
         fields["done"] = done
         fields["k"] = f.get("k")
         stats["crash_points"] += 1
@@ -563,8 +627,13 @@ def check_queries(iss, real_qs, spec_qs, fields, hashes, clean, stats, committed
 
 
 def compare_behaviour(iss, h, prog, plan, res, tokhash, stats):
+    # kr / ke: the options of the SPECIFICATION's configuration (for a strategy string: what the
+    # transcription StrategyOpts makes of it); the real store's come from the real function
     kr, ke = h["kr"], h["ke"]
-    base = {"kr": kr, "ke": ke, "spal": bool(h.get("spal")), "id": prog["id"]}
+    base = {"kr": kr, "ke": ke, "spal": bool(h.get("spal")), "id": prog["id"], "strat": strat_of(h)}
+    if strat_of(h) is not None:
+        bs = stats.setdefault("strategy_behaviours", {})
+        bs[strat_of(h)] = bs.get(strat_of(h), 0) + 1
     obs = res.get("obs") or []
     if res.get("tool_error"):
         iss.tool.append("driver: %s" % res["tool_error"])
@@ -590,6 +659,12 @@ def compare_behaviour(iss, h, prog, plan, res, tokhash, stats):
                 iss.add("working-content-differs", "after %s the stores show %s / %s, the specification %s / %s"
                         % (json.dumps(pl["e"]["op"]), json.dumps(rstores(o.get("stores")), sort_keys=True), o.get("trans"),
                            json.dumps(nstores(e["stores"]), sort_keys=True), nmap(e["trans"])), **f)
+        elif kind == "liveload":
+            if not check_liveload(iss, pl["e"], o, f, committed, hashes, tokhash, stats):
+                # the real handle and the specification's have parted (a load that succeeds on one
+                # side only): what follows are consequences
+                stats["behaviours"] += 1
+                return
         elif kind == "observe":
             clean = bool(pl["obs"].get("clean"))
             check_loads(iss, o.get("loads"), pl["obs"], f, committed, clean)
@@ -658,7 +733,7 @@ def compare_behaviour(iss, h, prog, plan, res, tokhash, stats):
             if idl.get("ok"):
                 ideal[n + 1] = idl["hash"]
             cf = dict(base)
-            cf.update(crash_class(pl["done"], n, o.get("storevers")))
+            cf.update(crash_class(pl["done"], n, o.get("storevers"), kr, ke))
             cf["done"] = pl["done"]
             crashed_in = (n, pre, post, cf)
             committed.setdefault(n + 1, post)
@@ -710,6 +785,68 @@ def compare_behaviour(iss, h, prog, plan, res, tokhash, stats):
             check_loads(iss, o.get("loads"), pl["obs"] or {}, f, committed, clean)
             check_queries(iss, o.get("queries"), pl["queries"], f, hashes, clean, stats, committed)
     stats["behaviours"] += 1
+
+
+def handle_state(o):
+    return {"ver": o.get("ver"), "hash": o.get("hash"), "stores": rstores(o.get("stores")), "trans": dict(o.get("trans") or {})}
+
+
+def check_liveload(iss, e, o, f, committed, hashes, tokhash, stats):
+    """LoadVersion(v) on the live handle.  e: the specification's step, o: what the driver saw (`pre`:
+    the handle's projected state before the call).  Returns False when the outcomes differ."""
+    v, exp = e["v"], e["exp"]
+    f = dict(f, v=v)
+    clean = bool(e.get("clean"))
+    sok, rok = bool(e["ok"]), bool(o.get("ok"))
+    pre, post = handle_state(o.get("pre") or {}), handle_state(o)
+    ll = stats.setdefault("live_loads", {"total": 0, "failed_pruned": 0, "failed_never_committed": 0, "ok_latest": 0, "ok_older": 0,
+                                         "failed_with_uncommitted_writes": 0, "failed_on_rolled_back_handle": 0})
+    ll["total"] += 1
+    if o.get("panic"):
+        iss.add("live-load-panics", "LoadVersion(%d) on the live store (at version %s) panics: %s" % (v, pre["ver"], o.get("err")), **f)
+        return False
+    if clean:
+        if e.get("retained") and not rok:
+            iss.add("retained-version-unreadable", "version %d is retained by the pruning policy (kr=%s ke=%s) but LoadVersion(%d) on the live store fails: %s"
+                    % (v, f.get("kr"), f.get("ke"), v, o.get("err")), **f)
+        if not e.get("retained") and rok:
+            iss.add("pruned-version-readable", "version %d is not retained by the pruning policy (kr=%s ke=%s) but LoadVersion(%d) on the live store succeeds"
+                    % (v, f.get("kr"), f.get("ke"), v), **f)
+    if not rok:
+        changed = [x for x in ("ver", "hash", "stores", "trans") if pre[x] != post[x]]
+        if changed:
+            iss.add("failed-load-changes-handle",
+                    "LoadVersion(%d) on the live store (version %s, hash %s) returned an error (%s) but changed the store's %s: "
+                    "it now reports version %s, hash %s, content %s (before: %s)"
+                    % (v, pre["ver"], str(pre["hash"])[:16], o.get("err"), "/".join(changed), post["ver"], str(post["hash"])[:16],
+                       json.dumps(post["stores"], sort_keys=True), json.dumps(pre["stores"], sort_keys=True)), **f)
+    else:
+        if post["ver"] != v:
+            iss.add("live-load-wrong-version", "LoadVersion(%d) on the live store succeeded but it reports version %s" % (v, post["ver"]), **f)
+        want = committed.get(v)
+        if want is None or post["stores"] != want or post["trans"]:
+            iss.add(("" if clean else "model:") + "live-load-wrong-content",
+                    "after LoadVersion(%d) the live store shows %s (transient %s), committed at %d: %s"
+                    % (v, json.dumps(post["stores"], sort_keys=True), post["trans"], v, json.dumps(want, sort_keys=True)), **f)
+        if v in hashes and post["hash"] != hashes[v]:
+            iss.add("live-load-hash-differs-from-commit", "after LoadVersion(%d) the live store reports hash %s, Commit of version %d returned %s"
+                    % (v, post["hash"], v, hashes[v]), **f)
+    if rok != sok:
+        iss.add("model:load-outcome-differs", "LoadVersion(%d) on the live store: real ok=%s (%s), specification ok=%s" % (v, rok, o.get("err"), sok), **f)
+        return False
+    if post["ver"] != exp["ver"] or post["stores"] != nstores(exp["stores"]) or post["trans"] != nmap(exp["trans"]):
+        iss.add("model:live-load-state-differs", "after LoadVersion(%d) (ok=%s) the live store shows version %s %s, the specification version %s %s"
+                % (v, rok, post["ver"], json.dumps(post["stores"], sort_keys=True), exp["ver"], json.dumps(nstores(exp["stores"]), sort_keys=True)), **f)
+    note_token(iss, tokhash, exp.get("tok"), post["hash"], f)
+    if not sok:
+        ll["failed_pruned" if e.get("hasinfo") else "failed_never_committed"] += 1
+        if e.get("nblock"):
+            ll["failed_with_uncommitted_writes"] += 1
+        if e.get("rolled"):
+            ll["failed_on_rolled_back_handle"] += 1
+    else:
+        ll["ok_older" if e.get("rolled") else "ok_latest"] += 1
+    return True
 
 
 def note_token(iss, tokhash, tok, real_hash, fields):
@@ -775,6 +912,14 @@ def run_mc(out, d, prop, tier, rng):
         n = subs.pop("nprun", None)
         if n:
             subs["PrunSel"] = "{" + ", ".join(str(x) for x in pick_prunings(rng, n)) + "}"
+        strats = subs.pop("strats", None)
+        if strats:
+            # "?": one unrecognised string drawn by the seed - it resolves to PruneSyncable, which would be
+            # one more pair to explore; the quick tier takes it only when that pair was drawn anyway (the
+            # unrecognised strings meet the real code in the replayed and recorded histories of every run)
+            free = "13" in re.findall(r"\d+", subs.get("PrunSel", "13"))
+            strats = SIM_STRATEGIES if strats == "all" else [rng.choice(UNRECOGNISED) if s == "?" else s for s in strats if s != "?" or free]
+            subs["Strategies"] = tla_set(strats)
         text = cfg_text(cfg, subs)
         res = common.run_tlc("MultiStore", "run_" + cfg, d, workers=MAXW, timeout=tmo, files={"run_" + cfg: text})
         common.require_tlc_ok(res, cfg)
@@ -790,7 +935,7 @@ def run_mc(out, d, prop, tier, rng):
                    for m in re.finditer(r"(?m)^<(\w+) line [^>]*>: (\d+):(\d+)", cres.out)}
             out.notes.setdefault("action_coverage", {})[cfg] = {
                 "constants": csubs, "distinct_states": cres.distinct, "distinct_states_per_action": {k: v[0] for k, v in cov.items()}}
-            need = ["Write", "CommitStart", "CommitSave", "CommitPrune", "CommitTransient", "CommitFlush", "Crash", "Reopen"]
+            need = ["Write", "CommitStart", "CommitSave", "CommitPrune", "CommitTransient", "CommitFlush", "LiveLoad", "Crash", "Reopen"]
             missing = [a for a in need if cov.get(a, (0, 0))[1] == 0]
             if missing:
                 raise common.ToolError("%s: actions never taken (vacuous run): %s" % (cfg, missing))
@@ -858,7 +1003,7 @@ def slim(h):
         if isinstance(o, dict) and len(json.dumps(o)) > 20000:
             e["obs"] = {"loads": o.get("loads") or [], "queries": [], "clean": o.get("clean")}
         steps.append(e)
-    return {"kr": h["kr"], "ke": h["ke"], "spal": bool(h.get("spal")), "steps": steps}
+    return {"kr": h["kr"], "ke": h["ke"], "spal": bool(h.get("spal")), "strat": h.get("strat"), "steps": steps}
 
 
 def new_stats():
@@ -922,14 +1067,26 @@ def record_and_validate(out, d, prop, tier, seed, rng, devs):
     runs = TIERS[tier]["records"][prop]
     lines, metas = [], []
     for j, r in enumerate(runs):
-        pr = r["pr"]
-        if pr == "rand":
-            pr = rng.randint(1, 12)
-        elif pr in SHAPES:
-            pr = rng.choice(SHAPES[pr])
-        krv, kev = PRUNING_SEQ[pr - 1]
-        args = ["record", "--seed", str(seed * 1000 + j), "--commits", str(r["commits"]), "--kr", str(krv), "--ke", str(kev),
-                "--backend", r.get("backend", "memdb")]
+        strat = r.get("strat")
+        if strat is not None:
+            # the options are whatever the real NewPruningOptionsFromString makes of the string; the
+            # specification's come from its transcription (CONF line of the trace validation)
+            if strat == "?":
+                strat = rng.choice(UNRECOGNISED)
+            krv = kev = None
+            args = ["record", "--seed", str(seed * 1000 + j), "--commits", str(r["commits"]), "--use-strategy", "--strategy=" + strat,
+                    "--backend", r.get("backend", "memdb")]
+        else:
+            pr = r["pr"]
+            if pr == "rand":
+                pr = rng.randint(1, 12)
+            elif pr in SHAPES:
+                pr = rng.choice(SHAPES[pr])
+            krv, kev = PRUNING_SEQ[pr - 1]
+            args = ["record", "--seed", str(seed * 1000 + j), "--commits", str(r["commits"]), "--kr", str(krv), "--ke", str(kev),
+                    "--backend", r.get("backend", "memdb")]
+        if r.get("pll"):
+            args += ["--pliveload", str(r["pll"])]
         if "PruneBeforeFlush" not in devs:
             args.append("--prune-after-flush")
         spal = r.get("spal")
@@ -941,11 +1098,29 @@ def record_and_validate(out, d, prop, tier, seed, rng, devs):
         if p.returncode != 0:
             raise common.ToolError("storedrv record failed: %s" % p.stderr[-2000:])
         ls = [x for x in p.stdout.splitlines() if x.strip()]
-        metas.append({"args": args, "first_line": len(lines) + 1, "lines": len(ls), "kr": krv, "ke": kev})
+        metas.append({"args": args, "first_line": len(lines) + 1, "lines": len(ls), "kr": krv, "ke": kev, "strat": strat})
         lines.extend(ls)
     iss, stats = validate_lines(out, d, lines, metas, devs)
     stats["histories"] = len(runs)
     return iss, stats
+
+
+def live_load_counts(evs):
+    """LoadVersion calls on the live handle in recorded histories, by what the real call did."""
+    c = {"total": 0, "failed_pruned": 0, "failed_never_committed": 0, "ok_latest": 0, "ok_older": 0}
+    commits = 0
+    for e in evs:
+        if e["a"] == "reset":
+            commits = 0
+        elif e["a"] == "flush":
+            commits += 1
+        elif e["a"] == "liveload":
+            c["total"] += 1
+            if e.get("ok"):
+                c["ok_latest" if e["v"] == commits else "ok_older"] += 1
+            else:
+                c["failed_pruned" if e["v"] <= commits else "failed_never_committed"] += 1
+    return c
 
 
 def validate_lines(out, d, lines, metas, devs):
@@ -958,10 +1133,34 @@ def validate_lines(out, d, lines, metas, devs):
                 return m
         return metas[-1]
 
+    # prune writes after the flush = the crash-safe order; the model follows what the log shows
+    tdev = [x for x in devs]
+    text = cfg_text("Trace_MultiStore.cfg", {"Dev": "{" + ", ".join('"%s"' % x for x in tdev) + "}"})
+    res = common.run_tlc("Trace_MultiStore", "Trace_MultiStore.cfg", d, workers=1, timeout=1500,
+                         files={"trace.ndjson": "\n".join(lines) + "\n", "Trace_MultiStore.cfg": text})
+    if res.error:
+        raise common.ToolError("trace validation: TLC error: %s\n%s" % (res.error, res.out[-3000:]))
+    out.add_tlc(res, "trace validation of %d recorded events (%d histories)" % (len(lines), len(metas)))
+    # the options of the SPECIFICATION's configuration per history (TraceReset prints them): the pair
+    # handed over, or its transcription's reading of the strategy string
+    confs = {c["line"]: c for c in parse_printed(res.out, "CONF")}
+    for m in metas:
+        c = confs.get(m["first_line"])
+        if c is None:
+            if m.get("kr") is None:
+                m["kr"] = m["ke"] = -1   # the trace was rejected before this history
+            continue
+        m["kr"], m["ke"] = c["kr"], c["ke"]
+        m["strat"] = None if c["strat"] == NO_STRATEGY else c["strat"]
+        if not c["same"]:
+            iss.add("model:strategy-options-differ",
+                    "strategy %r: the real NewPruningOptionsFromString returned (%s, %s), the specification's transcription (%s, %s)"
+                    % (c["strat"], evs[m["first_line"] - 1].get("kr"), evs[m["first_line"] - 1].get("ke"), c["kr"], c["ke"]),
+                    kr=c["kr"], ke=c["ke"], strat=m["strat"], record_args=m["args"], line=1, origin="recorded-trace")
     # durable writes outside the commit protocol never reach the spec
     for i, e in enumerate(evs):
         m = run_of(i + 1)
-        f = {"kr": m["kr"], "ke": m["ke"], "record_args": m["args"], "line": i + 1, "origin": "recorded-trace"}
+        f = {"kr": m["kr"], "ke": m["ke"], "strat": m.get("strat"), "record_args": m["args"], "line": i + 1, "origin": "recorded-trace"}
         if e["a"] == "otherwrite":
             cls = e.get("class") or ""
             iss.add("flush-not-atomic" if ("latest" in cls or "cinfo" in cls) else "model:unexpected-durable-write",
@@ -972,21 +1171,15 @@ def validate_lines(out, d, lines, metas, devs):
             iss.add("query-panics", "Query %s panics: %s" % ([e["via"], e["s"], e["k"], e["h"], e["p"]], e["panic"]), **f)
         elif e["a"] == "tool_error":
             iss.tool.append("record: %s" % e.get("err"))
-    # prune writes after the flush = the crash-safe order; the model follows what the log shows
-    tdev = [x for x in devs]
-    text = cfg_text("Trace_MultiStore.cfg", {"Dev": "{" + ", ".join('"%s"' % x for x in tdev) + "}"})
-    res = common.run_tlc("Trace_MultiStore", "Trace_MultiStore.cfg", d, workers=1, timeout=1500,
-                         files={"trace.ndjson": "\n".join(lines) + "\n", "Trace_MultiStore.cfg": text})
-    if res.error:
-        raise common.ToolError("trace validation: TLC error: %s\n%s" % (res.error, res.out[-3000:]))
-    out.add_tlc(res, "trace validation of %d recorded events (%d histories)" % (len(lines), len(metas)))
     ends = parse_printed(res.out, "TRACE-END")
     accepted = bool(ends)
     stats = {"histories": len(metas), "events": len(lines), "accepted": accepted,
              "commits": sum(1 for e in evs if e["a"] == "flush"), "loads": sum(1 for e in evs if e["a"] == "load"),
              "queries": sum(1 for e in evs if e["a"] == "query"),
              "pruned_loads_seen": sum(1 for e in evs if e["a"] == "load" and not e.get("ok")),
-             "runs": [{"args": m["args"], "lines": m["lines"]} for m in metas]}
+             "live_loads": live_load_counts(evs),
+             "strategy_histories": sorted(m["strat"] for m in metas if m.get("strat") is not None),
+             "runs": [{"args": m["args"], "lines": m["lines"], "kr": m["kr"], "ke": m["ke"], "strat": m.get("strat")} for m in metas]}
     if not accepted:
         at = res.depth  # states on the path = consumed lines + 1; the next line is the rejected one
         ev = evs[at - 1] if 0 < at <= len(evs) else None
@@ -994,7 +1187,7 @@ def validate_lines(out, d, lines, metas, devs):
         stats["rejected_at_line"] = at
         iss.rejected = "line %d: %s" % (at, json.dumps(ev)[:300])
         iss.add("model:trace-rejected", "the specification has no step for line %d of the recorded history: %s" % (at, json.dumps(ev)[:400]),
-                kr=m["kr"], ke=m["ke"], record_args=m["args"], line=at, origin="recorded-trace", event=ev)
+                kr=m["kr"], ke=m["ke"], strat=m.get("strat"), record_args=m["args"], line=at, origin="recorded-trace", event=ev)
     else:
         for b in ends[0].get("bad") or []:
             ln = b["line"]
@@ -1012,7 +1205,8 @@ def validate_lines(out, d, lines, metas, devs):
                 extra["query"] = [ev["via"], ev["s"], ev["k"], ev["h"], ev["p"]]
             iss.add(b["kind"], "recorded history line %d (line %d of `storedrv %s`): %s: %s"
                     % (ln, ln - m["first_line"] + 1, " ".join(m["args"]), b["kind"], json.dumps(ev)[:500]),
-                    kr=m["kr"], ke=m["ke"], record_args=m["args"], line=ln - m["first_line"] + 1, origin="recorded-trace", event=ev, **extra)
+                    kr=m["kr"], ke=m["ke"], strat=m.get("strat"), record_args=m["args"], line=ln - m["first_line"] + 1, origin="recorded-trace",
+                    event=ev, **extra)
     return iss, stats
 
 
@@ -1037,6 +1231,24 @@ def report(out, prop, iss, where):
     cnt = out.notes.setdefault("difference_counts", {})
     for (sig, cls), n in iss.counts.items():
         cnt["%s|%s|%s" % (where, sig, cls)] = n
+
+
+def check_not_vacuous(prop, stats, tstats):
+    """The two extensions must have been exercised on the real code in this very run."""
+    sim = stats.get("live_loads") or {}
+    rec = tstats.get("live_loads") or {}
+    if sim.get("failed_pruned", 0) == 0:
+        raise common.ToolError("vacuous: no replayed behaviour contains a failing LoadVersion of a pruned version on the live store (%s)" % sim)
+    if prop == "C12" and rec.get("failed_pruned", 0) == 0:
+        raise common.ToolError("vacuous: no recorded history contains a failing LoadVersion of a pruned version on the live store (%s)" % rec)
+    if sim.get("ok_older", 0) + sim.get("ok_latest", 0) == 0:
+        raise common.ToolError("vacuous: no replayed behaviour contains a succeeding LoadVersion on the live store (%s)" % sim)
+    sb = stats.get("strategy_behaviours") or {}
+    missing = [s for s in UNRECOGNISED + RECOGNISED if not sb.get(s)]
+    if missing:
+        raise common.ToolError("vacuous: no replayed behaviour was configured with the strategy string(s) %r (%s)" % (missing, sb))
+    if not [s for s in tstats.get("strategy_histories") or [] if s in UNRECOGNISED]:
+        raise common.ToolError("vacuous: no recorded history was configured with an unrecognised strategy string (%s)" % tstats.get("strategy_histories"))
 
 
 def run(prop, tier, seed):
@@ -1091,6 +1303,8 @@ def run(prop, tier, seed):
             out.notes["t_app_crash_s"] = round(time.time() - t0, 1)
         if out.notes.get("tool_problems") and not out.violations:
             raise common.ToolError("; ".join(out.notes["tool_problems"][:3]))
+        if not out.violations:
+            check_not_vacuous(prop, stats, tstats)
         if tiss.rejected and not out.violations:
             raise common.ToolError("the specification could not follow a recorded history of the real code (%s); "
                                    "that part of the evidence is missing" % tiss.rejected)
